@@ -70,7 +70,7 @@ struct H
       std::vector<int> u(rs, rs + 4); std::sort(u.begin(), u.end()); u.erase(std::unique(u.begin(), u.end()), u.end());
       for(size_t j = 0; j < u.size(); ++j) if(u[j] >= 0) { add(REMF, u[j]); add(REMB, u[j]); }
     }
-    add(CLEAR); add(FREE); add(SWAP);
+    add(CLEAR); add(FREE); add(SWAP, 0); add(SWAP, 1);
     for(int r = 0; r < 2; ++r)
     {
       // a range may be attached to one buffer at a time (two windows over one range would alias)
@@ -150,7 +150,7 @@ struct H
     case REMB: LIB(a.removeBack((usize)o.x)); if(o.x >= (int)ma.size()) ma.clear(); else ma.resize(ma.size() - o.x); m[0].attached = stillAttached(0); break;
     case CLEAR: LIB(a.clear()); ma.clear(); m[0].attached = stillAttached(0); break;
     case FREE: LIB(a.free()); ma.clear(); m[0].attached = -1; break;
-    case SWAP: LIB(a.swap(b)); std::swap(m[0], m[1]); break;
+    case SWAP: if(o.x) LIB(b.swap(a)); else LIB(a.swap(b)); std::swap(m[0], m[1]); break;
     case ATTACH:
       // the range is restored to its pristine content before it is attached (the library may have
       // written inside it while it was attached earlier, which the statement allows)
